@@ -14,7 +14,7 @@ import ast
 import os
 
 from ..cfg import cfg_of
-from ..core import Program, AnalysisError, stmt_text
+from ..core import Program, AnalysisError, stmt_text, own_nodes
 from ..pointsto import PointsTo, SPEC
 from ..report import Inst
 
@@ -39,6 +39,218 @@ def _fixture_ok():
     fpt = PointsTo(fp)
     hits = [(s.func.short, s.op) for s, objs in spec_sinks(fpt) if SPEC in objs]
     return hits == [('Lang.resolve', 'extend')], hits
+
+
+MUTABLE_NODE_FIELDS = ('ttc', 'tags', 'attributes', 'extras', 'mitre_info')
+
+
+class _Prov:
+    """where does the value of an expression come from?  -> set of tags
+    ('fresh', text) result of a deep-copying / deep-fresh call, ('heap', text) an object read from a field of an
+    existing object, ('const',), ('unknown', text)."""
+
+    def __init__(self, ctx, pt, f):
+        self.ctx, self.pt, self.f = ctx, pt, f
+        self.cfg = ctx.cfg(f)
+        self.calls = []       # CFG nodes of the fresh calls found
+
+    def of(self, e, node, comp=None, depth=0):
+        comp = comp or {}
+        if depth > 12:
+            return {('unknown', 'depth')}
+        if isinstance(e, ast.Constant):
+            return {('const',)}
+        if isinstance(e, ast.Subscript):
+            return self.of(e.value, node, comp, depth + 1)
+        if isinstance(e, ast.IfExp):
+            return self.of(e.body, node, comp, depth + 1) | self.of(e.orelse, node, comp, depth + 1)
+        if isinstance(e, (ast.List, ast.Tuple, ast.Set)):
+            out = {('const',)}
+            for x in e.elts:
+                out |= self.of(x, node, comp, depth + 1)
+            return out
+        if isinstance(e, ast.Dict):
+            out = {('const',)}
+            for x in e.values:
+                out |= self.of(x, node, comp, depth + 1)
+            return out
+        if isinstance(e, (ast.DictComp, ast.ListComp, ast.SetComp, ast.GeneratorExp)):
+            c2 = dict(comp)
+            for g in e.generators:
+                for nm in ast.walk(g.target):
+                    if isinstance(nm, ast.Name):
+                        c2[nm.id] = (g.iter, node)
+            val = e.value if isinstance(e, ast.DictComp) else e.elt
+            return self.of(val, node, c2, depth + 1)
+        if isinstance(e, ast.Attribute):
+            base = e
+            while isinstance(base, (ast.Attribute, ast.Subscript)):
+                base = base.value
+            return {('heap', stmt_text(e, 60))}
+        if isinstance(e, ast.Name):
+            if e.id in comp:
+                it, n2 = comp[e.id]
+                c3 = {k: v for k, v in comp.items() if k != e.id}
+                return self.of(it, n2, c3, depth + 1)
+            if e.id in self.f.params:
+                return {('heap', e.id)}
+            defs = self.cfg.reaching(node, e.id) if node is not None else []
+            out = set()
+            for d in defs:
+                if d.kind == 'stmt' and isinstance(d.ast, (ast.Assign, ast.AnnAssign)) and getattr(d.ast, 'value', None) is not None:
+                    tg = d.ast.targets[0] if isinstance(d.ast, ast.Assign) else d.ast.target
+                    if isinstance(tg, ast.Name):
+                        out |= self.of(d.ast.value, d, comp, depth + 1)
+                    else:
+                        out |= self.of(d.ast.value, d, comp, depth + 1)     # tuple unpacking: any component
+                elif d.kind == 'for':
+                    out |= self.of(d.ast.iter, d, comp, depth + 1)
+                else:
+                    out.add(('unknown', f'definition of {e.id}'))
+            return out or {('unknown', e.id)}
+        if isinstance(e, ast.Call):
+            fn = e.func
+            if isinstance(fn, ast.Attribute) and isinstance(fn.value, ast.Name) and fn.value.id == 'copy' \
+                    and fn.attr == 'deepcopy':
+                self.calls.append(node)
+                return {('fresh', 'copy.deepcopy')}
+            if isinstance(fn, ast.Attribute) and fn.attr in ('items', 'values', 'get', 'copy', 'pop', 'setdefault') :
+                return self.of(fn.value, node, comp, depth + 1)
+            if isinstance(fn, ast.Name) and fn.id in ('dict', 'list', 'tuple', 'sorted', 'reversed', 'set') and e.args:
+                return self.of(e.args[0], node, comp, depth + 1)      # shallow: the elements are the same objects
+            if isinstance(fn, ast.Name) and fn.id in ('str', 'int', 'float', 'bool', 'len', 'getattr'):
+                return {('const',)}
+            # package function: deep-fresh iff every object the points-to analysis returns is a DF object
+            self.pt._node = node
+            try:
+                objs = self.pt.ev(self.f, e)
+            finally:
+                self.pt._node = None
+            if objs and any(o == SPEC for o in objs):
+                return {('heap', 'the loaded specification via ' + stmt_text(fn, 40))}
+            if objs and all(o[0] in ('DF', 'A') for o in objs):
+                # transitive contents: deep-fresh objects and containers allocated by the callee that nothing
+                # outside this closure holds on to
+                # contents down to the per-node data (result -> step record -> ttc / tags / meta -> mitre)
+                closure = set(objs)
+                level = set(objs)
+                for _ in range(3):
+                    nxt = set()
+                    for o in level:
+                        for k, vals in (self.pt.heap.get(o) or {}).items():
+                            nxt |= vals
+                        if o[0] == 'DF':
+                            nxt |= self.pt.read({o}, '*')
+                    nxt -= closure
+                    closure |= nxt
+                    level = nxt
+                if SPEC in closure:
+                    return {('heap', 'the loaded specification via ' + stmt_text(fn, 40))}
+                alloc_here = [o for o in closure if o[0] == 'A' and o[1] == self.f.short]
+                held = None
+                for holder, edges in self.pt.heap.items():
+                    if holder in closure:
+                        continue
+                    for k, vals in edges.items():
+                        hit = [v for v in vals if v in closure and v[0] == 'A']
+                        if hit:
+                            held = (holder, k)
+                            break
+                    if held:
+                        break
+                if held is None and not alloc_here:
+                    self.calls.append(node)
+                    return {('fresh', stmt_text(fn, 50))}
+                if held is not None:
+                    return {('heap', f'{held[0][1]}:{held[0][2]} [{held[1]}] (kept by the callee) via {stmt_text(fn, 40)}')}
+            return {('unknown', stmt_text(e, 50))}
+        return {('unknown', type(e).__name__)}
+
+
+def _node_fresh(ctx, pt) -> list[Inst]:
+    """NODEFRESH: the mutable per-node data (ttc, tags, attributes ...) a generated node receives is created for
+    that node: it comes from a deep-fresh call made inside the per-asset loop, never from a field of the
+    language graph / model / another node.  Otherwise all assets of one type - and every graph generated from
+    the same language graph - hold the very same dictionaries (a change through one node shows in all)."""
+    prog = ctx.prog
+    f = prog.func('AttackGraph._generate_graph')
+    cfg = ctx.cfg(f)
+    rel = f.module.relpath
+    insts = []
+    props = ('C16', 'C14', 'C02')
+    stores = []      # (field, value expr, cfg node)
+    ctor_names = set()
+    for n in own_nodes(f.node):
+        if isinstance(n, ast.Call) and isinstance(n.func, ast.Name) and n.func.id == 'AttackGraphNode':
+            for kw in n.keywords:
+                if kw.arg in MUTABLE_NODE_FIELDS:
+                    stores.append((kw.arg, kw.value, cfg.owner(n)))
+        if isinstance(n, ast.Assign) and len(n.targets) == 1 and isinstance(n.targets[0], ast.Name) \
+                and isinstance(n.value, ast.Call) and isinstance(n.value.func, ast.Name) \
+                and n.value.func.id == 'AttackGraphNode':
+            ctor_names.add(n.targets[0].id)
+    for n in own_nodes(f.node):
+        if isinstance(n, ast.Assign):
+            for tg in n.targets:
+                if isinstance(tg, ast.Attribute) and isinstance(tg.value, ast.Name) and tg.value.id in ctor_names \
+                        and tg.attr in MUTABLE_NODE_FIELDS:
+                    stores.append((tg.attr, n.value, cfg.node_of(n)))
+    if not stores:
+        raise AnalysisError('NODEFRESH: no AttackGraphNode construction with ttc / tags / attributes found in '
+                            'AttackGraph._generate_graph')
+    for field, val, node in stores:
+        construct = f'NODEFRESH: node.{field} is created for this node'
+        pv = _Prov(ctx, pt, f)
+        tags = pv.of(val, node)
+        heap = sorted(t[1] for t in tags if t[0] == 'heap')
+        unk = sorted(t[1] for t in tags if t[0] == 'unknown')
+        if heap:
+            insts.append(Inst(
+                RULE, f.short, construct, 'violation',
+                msg=(f"node.{field} = '{stmt_text(val, 50)}' is the very object held in '{heap[0]}' (no copy on the "
+                     f"way): every node generated for that asset type, in this and in every other graph built from "
+                     f"the same language graph, shares one mutable {field} object"),
+                file=rel, line=val.lineno, props=props))
+            continue
+        if unk:
+            insts.append(Inst(RULE, f.short, construct, 'unproven', msg=f'origin not resolved: {unk[:2]}', file=rel,
+                              line=val.lineno, props=props))
+            continue
+        if not any(t[0] == 'fresh' for t in tags):
+            insts.append(Inst(RULE, f.short, construct, 'ok', msg='constant / literal', file=rel, line=val.lineno,
+                              props=props, nontrivial=False))
+            continue
+        # the fresh call runs once per asset: it sits in every loop that encloses the construction up to the
+        # loop over the model's assets
+        outer = node.loop
+        chain = []
+        while outer is not None:
+            chain.append(outer)
+            outer = outer.loop
+        per_asset = chain[-1] if chain else None
+        bad = None
+        for cn in pv.calls:
+            l = cn.loop if cn is not None else None
+            inside = False
+            while l is not None:
+                if l is per_asset:
+                    inside = True
+                l = l.loop
+            if cn is not None and cn is per_asset:
+                inside = True
+            if per_asset is not None and not inside:
+                bad = cn
+        if bad is not None:
+            insts.append(Inst(
+                RULE, f.short, construct, 'violation',
+                msg=(f"node.{field} comes from '{stmt_text(bad.ast, 70)}', evaluated once outside the loop over the "
+                     f"model's assets: all assets handled by that loop receive the same {field} objects"),
+                file=rel, line=val.lineno, props=props))
+        else:
+            insts.append(Inst(RULE, f.short, construct, 'ok',
+                              msg='from ' + ', '.join(sorted({t[1] for t in tags if t[0] == 'fresh'})) + ' inside the per-asset loop',
+                              file=rel, line=val.lineno, props=props))
+    return insts
 
 
 def run(ctx) -> list[Inst]:
@@ -71,4 +283,5 @@ def run(ctx) -> list[Inst]:
                               props=PROPS, nontrivial=bool(objs),
                               msg='receiver: ' + ', '.join(sorted({o[0] for o in objs})) if objs else
                               'receiver outside the tracked heap'))
+    insts += _node_fresh(ctx, pt)
     return insts
